@@ -66,6 +66,9 @@ NoSlot == [kind |-> "none", prev |-> "zero", new |-> "zero", content |-> <<>>]
 VElems(owner, c, shift) == [i \in 1..N(c) |-> <<owner, i, (i + shift) % 3>>]
 Slots == {[kind |-> "slice", prev |-> a, new |-> b, content |-> Elems("old", a)] : a \in Classes, b \in Classes}
     \cup {[kind |-> "variant", prev |-> a, new |-> b, content |-> VElems("old", a, 0)] : a \in Classes, b \in Classes}
+    \* one field of a fixed width: the zero / sentinel value (no account, no address, zero currency, false, the
+    \* empty string) is a value like any other - it REPLACES what the receiver held
+    \cup {[kind |-> "scalar", prev |-> a, new |-> b, content |-> <<<<"old", 1, a>>>>] : a \in {"zero", "nonzero"}, b \in {"zero", "nonzero"}}
     \cup {[kind |-> "optional", prev |-> a, new |-> b, content |-> Elems("old", a)] : a \in {"set", "unset"}, b \in {"set", "unset"}}
 
 \* ---- (1) the buffer --------------------------------------------------------------------------
@@ -105,7 +108,9 @@ Grow ==
 \* ---- slot ------------------------------------------------------------------------------------
 Decode ==
   /\ fam = "slot" /\ pc = "hold" /\ pc' = "done"
-  /\ slot' = [slot EXCEPT !.content = IF slot.kind = "variant" THEN VElems("new", slot.new, 1) ELSE Elems("new", slot.new)]
+  /\ slot' = [slot EXCEPT !.content = CASE slot.kind = "variant" -> VElems("new", slot.new, 1)
+                                        [] slot.kind = "scalar" -> <<<<"new", 1, slot.new>>>>
+                                        [] OTHER -> Elems("new", slot.new)]
   /\ UNCHANGED <<fam, recv, seq, len, cap, want, stale, consumed>>
 
 Next == (\E n \in Lens : Arrive(n)) \/ Reset \/ Grow \/ Decode
@@ -116,7 +121,8 @@ Read == fam = "buffer" /\ pc = "idle" /\ seq # <<>>
 Faithful == Read => (len = want /\ stale = 0 /\ consumed = want /\ cap >= len)
 NoTrust  == (fam = "buffer" /\ pc = "grow") => (len = consumed /\ len <= want)
 Replace  == (fam = "slot" /\ pc = "done") =>
-               /\ Len(slot.content) = N(slot.new)
+               /\ Len(slot.content) = (IF slot.kind = "scalar" THEN 1 ELSE N(slot.new))
+               /\ (slot.kind = "scalar" => slot.content[1][3] = slot.new)
                /\ \A i \in 1..Len(slot.content) : slot.content[i][1] = "new" /\ slot.content[i][2] = i
                /\ (slot.kind = "variant" => \A i \in 1..Len(slot.content) : slot.content[i][3] = (i + 1) % 3)
 
@@ -124,5 +130,6 @@ Replace  == (fam = "slot" /\ pc = "done") =>
 EmitCase ==
   /\ (Emit /\ Read /\ Len(seq) = MaxSteps) => PrintT("@@REUSE " \o ToJson([recv |-> recv, lens |-> seq]))
   /\ (Emit /\ fam = "slot" /\ pc = "done") =>
-        PrintT("@@DIRTY " \o ToJson([kind |-> slot.kind, prev |-> slot.prev, new |-> slot.new, count |-> N(slot.new)]))
+        PrintT("@@DIRTY " \o ToJson([kind |-> slot.kind, prev |-> slot.prev, new |-> slot.new,
+                                      count |-> IF slot.kind = "scalar" THEN 1 ELSE N(slot.new)]))
 =============================================================================
